@@ -5,7 +5,7 @@ import ast
 
 from ..core import guards
 from ..core import pyfacts as pf
-from ..core.match import call_arg, phi_alts, txt
+from ..core.match import canon, call_arg, phi_alts, txt
 from ..core.source import AnchorMissing
 from .common import DECAY, builder_sites, ckey, enclosing, fn, returns, single_def, stmt_of, where
 
@@ -218,7 +218,7 @@ def c11_3(ctx, ss):
 def c11_8(ctx, ss):
     ff, flow = fn(ss, DECAY, "_has_no_subdecay")
     r = returns(ff)
-    ok = len(r) == 1 and txt(r[0].value) in ("all((isinstance(p, str) for p in ds))", "all(isinstance(p, str) for p in ds)", "not any((isinstance(p, dict) for p in ds))")
+    ok = len(r) == 1 and txt(r[0].value) in (canon("all((isinstance(p, str) for p in ds))"), canon("all(isinstance(p, str) for p in ds)"), canon("not any((isinstance(p, dict) for p in ds))"))
     (ctx.holds if ok else ctx.violation)("C11.7", ckey(ff, None, "classify"), where(ff, ff.node),
                                           "a final state has no sub-decay iff ALL its entries are names" if ok else f"_has_no_subdecay is `{txt(r[0].value) if r else None}`")
     ff, flow = fn(ss, DECAY, "DecayMode.to_dict")
@@ -282,7 +282,7 @@ def c11_6(ctx, ss):
     k = ckey(ff, None, "normalise")
     a = flow.expand(c.args[0]) if c.args else None
     alts_ = sorted(txt(x) for x in phi_alts(a)) if a is not None else []
-    want = sorted(["iterable", "iterable.split()", "{__elem__(iterable.items())[0]: __elem__(iterable.items())[1] for k, v in iterable.items() if __elem__(iterable.items())[1] > 0}"])
+    want = sorted(["iterable", "iterable.split()", canon("{__elem__(iterable.items())[0]: __elem__(iterable.items())[1] for k, v in iterable.items() if __elem__(iterable.items())[1] > 0}")])
     okk = any(kw.arg is None and txt(kw.value) == "kwds" for kw in c.keywords)
     (ctx.holds if alts_ == want and okk else ctx.violation)("C11.6", k, where(ff, c),
                                                             "str → split(), mapping → positive counts, otherwise unchanged; keyword counts forwarded" if alts_ == want and okk
